@@ -137,6 +137,9 @@ def check(run):
     run.floor("F-GUARD/attrs-membership", n, 6)
     _exodus_blocks(run, P)
     _construct_paths(run, P)
+    # Cartesian-only sources (Exodus, face vertices) get their lon/lat through _xyz_to_lonlat_*: normalisation by the length, pole window
+    from .c04 import _xyz_helpers
+    _xyz_helpers(run, P)
 
 
 # ------------------------------------------------------------------------------------------------ dispatch
@@ -219,11 +222,13 @@ CONN_ENTRIES = [
 ]
 
 
-def _emit_sinks(run, I, f, n_found):
+def _emit_sinks(run, I, f, n_found, only=None):
     by_key = {}
     for (g, node, key, v, facts) in I.sinks:
         by_key.setdefault((g.key, key), []).append((node, v, facts))
     for (gk, key), lst in sorted(by_key.items()):
+        if only is not None and not (key in only or key.startswith("<")):
+            continue
         c = f"{gk}:sink[{key}]"
         bad = []
         unknown = []
@@ -246,7 +251,7 @@ def _emit_sinks(run, I, f, n_found):
         n_found[0] += 1
 
 
-def _conn(run, P):
+def _conn(run, P, only=None):
     n = [0]
     try:
         m = P.module("uxarray.io._mpas")
@@ -254,15 +259,17 @@ def _conn(run, P):
             if f.name.startswith("_parse_") and m.defs.get(f.name) is f and "in_ds" in f.params():
                 I = C.analyse_reader(P, f, ["in_ds", "out_ds"])
                 if I.sinks:
-                    _emit_sinks(run, I, f, n)
+                    _emit_sinks(run, I, f, n, only)
         for key, ds, extra in CONN_ENTRIES:
             f = P.func(key)
             I = C.analyse_reader(P, f, ds, extra)
-            if not I.sinks:
+            if not I.sinks and only is None:
                 run.incomplete("F-CONN/standard-form", f"{key}:sinks", where(f), "no connectivity sink found in this reader")
-            _emit_sinks(run, I, f, n)
+            _emit_sinks(run, I, f, n, only)
     except C.Incomplete as e:
         run.incomplete("F-CONN/standard-form", "typestate", "-", str(e))
+    if only is not None:
+        return
     # from_topology: summary of _process_connectivity for a caller-supplied array, fill value and start index ...
     f = P.func(f"{IO}_topology.py:_process_connectivity")
     I = C.ConnInterp(P, f.module.relpath)
